@@ -207,16 +207,32 @@ where
 
     if let Some(instance_keep_count) = sample_keep_history_limit.or(sample_keep_resource_limit) {
       let remove_count = instance_metadata.instance_samples.len() as i32 - instance_keep_count;
-      if remove_count > 0 {
-        let keys_to_remove: Vec<_> = instance_metadata
+      for _ in 0..remove_count {
+        // Remove the oldest sample of the instance. The oldest receive timestamp tells
+        // which writer is to lose a sample, but among the samples of that writer
+        // the oldest is the one with the lowest sequence number: a sample
+        // that arrived early (out of order) has an earlier timestamp than its
+        // predecessors, which a reliable reader hands over before it.
+        let victim = instance_metadata
           .instance_samples
           .iter()
-          .take(remove_count as usize)
-          .copied()
-          .collect();
-        for k in keys_to_remove {
+          .next()
+          .and_then(|oldest_ts| self.datasamples.get(oldest_ts))
+          .map(|oldest| oldest.writer_guid)
+          .and_then(|writer| {
+            instance_metadata
+              .instance_samples
+              .iter()
+              .filter_map(|ts| self.datasamples.get(ts).map(|s| (ts, s)))
+              .filter(|(_ts, s)| s.writer_guid == writer)
+              .min_by_key(|(_ts, s)| s.sequence_number)
+              .map(|(ts, _s)| *ts)
+          });
+        if let Some(k) = victim {
           instance_metadata.instance_samples.remove(&k);
           self.datasamples.remove(&k);
+        } else {
+          break;
         }
       }
     }
